@@ -29,6 +29,18 @@ func init() {
 	extend("C18", bigKinds("C18", []string{"resample"}, []bigCfg{{70, 3, false}, {300, 3, true}}, true))
 	extend("C19", bigKinds("C19", []string{"shift"}, []bigCfg{{70, 3, false}, {300, 2, false}, {1100, 1, true}}, false))
 	extend("C01", gapC01)
+	extend("C01", gap6C01)
+	extend("C02", gap6C02)
+	extend("C03", gap6C03)
+	extend("C04", gap6C04)
+	extend("C05", gap6C05)
+	extend("C06", gap6C06)
+	extend("C09", gap6C09)
+	extend("C15", gap6C15)
+	extend("C16", gap6C16)
+	extend("C17seq", gap6C17)
+	extend("C18", gap6C18)
+	extend("C20", gap6C20)
 	extend("C03", gapC03)
 	extend("C04", gapC04)
 	extend("C05", gapC05)
@@ -606,5 +618,278 @@ func bigC16(g *Gen, tier string, res *GenOutput) {
 		ops := []Op{{K: "agg", F: 0, Agg: "sum"}, {K: "agg", F: 0, Agg: "mean"}, {K: "agg", F: 0, Agg: "min"}, {K: "agg", F: 0, Agg: "max"}, {K: "describe", F: 0}, {K: "add", F: 0, G: 0}}
 		res.Hists = append(res.Hists, RunHist(fmt.Sprintf("big rows=%d", n), []Frame{f}, ops))
 		bump(res.Stats, fmt.Sprintf("big rows=%d", n))
+	}
+}
+
+// ---- streams added after the sixth round of seeded changes (values, state, subtle) ----
+
+// C01: a selection edited in place must not tear the rows of its source apart (code 13); AppendRow through a
+// receiver other than its target, with a column the target does not have yet
+func gap6C01(g *Gen, tier string, res *GenOutput) {
+	for i := 0; i < scale(tier, 10, 60); i++ {
+		f := mkFrame(intCol("id", 1, 2, 3, 4), strCol("name", "n1", "n2", "n3", "n4"), intCol("score", 10, 20, 30, 40))
+		nine := IntCell("int", 9)
+		derive := []Op{{K: "multiselect", F: 0, Strs: []BStr{"id", "name"}}, {K: "sort", F: 0, Strs: []BStr{"score"}}, {K: "head", F: 0, N: 3},
+			{K: "iloc", F: 0, Ints: []int64{0, 1, 2, 3}, Ints2: []int64{0, 1}}, {K: "loc", F: 0, Cells: []Cell{}, Strs: []BStr{"id", "name"}}, {K: "filter", F: 0, Keep: []bool{true, true, true, true}}}
+		edits := []Op{{K: "droprow", F: 1, N: int64(g.r.Intn(2))}, {K: "dedupinplace", F: 1, S1: "first"}, {K: "dropna", F: 1}, {K: "fillna", F: 1, Cell: &nine},
+			{K: "appendrow", F: 1, Row: []KV{{K: "id", V: nine}}}}
+		ops := []Op{derive[g.r.Intn(len(derive))], edits[g.r.Intn(len(edits))], edits[g.r.Intn(len(edits))], {K: "row", F: 0, N: 0}, {K: "nrows", F: 0}}
+		res.Hists = append(res.Hists, RunHist("edit-a-selection", []Frame{f}, ops))
+		bump(res.Stats, "edit-a-selection")
+	}
+	for i := 0; i < scale(tier, 10, 60); i++ {
+		big := mkFrame(intCol("id", 1, 2, 3, 4, 5), strCol("name", "a", "b", "c", "d", "e"))
+		small := mkFrame(intCol("id", 7), strCol("name", "x"))
+		row := []KV{{K: "extra", V: F64Cell(2.5)}, {K: "id", V: IntCell("int", 11)}, {K: "name", V: StrCell("y")}}
+		if g.chance(0.5) {
+			row = row[:2]
+		}
+		ops := []Op{{K: "appendrow", F: 1, G: 0, Alt: true, Row: row}, {K: "appendrow", F: 0, G: 1, Alt: true, Row: row}, {K: "nrows", F: 0}, {K: "nrows", F: 1},
+			{K: "appendrow", F: 1, G: 1, Alt: true, Row: []KV{{K: "more", V: BoolCell(true)}}}}
+		res.Hists = append(res.Hists, RunHist("appendrow-other-receiver", []Frame{big, small}, ops))
+		bump(res.Stats, "appendrow-other-receiver")
+	}
+}
+
+// C02: Resample over a datetime column held as text must fail and leave the text as it was
+func gap6C02(g *Gen, tier string, res *GenOutput) {
+	for _, vals := range [][]string{{"2021-03-04", "2021-03-05", "2021-03-04"}, {"2021-03-04 05:06:07", "2021-03-04 07:00:00"}, {"2021-03-04T05:06:07Z", "2021-03-04T05:06:07.5+02:00"}, {"2021-03-04", "n/a"}} {
+		v := Col{Key: "v", Name: "v", Data: []Cell{}}
+		for i := range vals {
+			v.Data = append(v.Data, IntCell("int", int64(i)))
+		}
+		f := mkFrame(strCol("ts", vals...), v)
+		ops := []Op{{K: "resample", F: 0, S1: "ts", S2: "D", Fn: 0}, {K: "row", F: 0, N: 0}, {K: "resample", F: 0, S1: "ts", S2: "H", Fn: 1}, {K: "tocsv", F: 0}}
+		res.Hists = append(res.Hists, RunHist("resample-text-dates", []Frame{f}, ops))
+		bump(res.Stats, "resample-text-dates")
+	}
+}
+
+// C03: keys that are the zero value of their type (0, "", false, 0.0) next to nil and to each other
+func gap6C03(g *Gen, tier string, res *GenOutput) {
+	zeros := []Cell{IntCell("int", 0), StrCell(""), BoolCell(false), F64Cell(0), NilCell(), IntCell("int64", 0), IntCell("int", 1), StrCell("0"), StrCell("false")}
+	for i := 0; i < scale(tier, 16, 100); i++ {
+		lk, rk := Col{Key: "k", Name: "k", Data: []Cell{}}, Col{Key: "k", Name: "k", Data: []Cell{}}
+		la, rv := Col{Key: "a", Name: "a", Data: []Cell{}}, Col{Key: "v", Name: "v", Data: []Cell{}}
+		for j := 0; j < 2+g.r.Intn(3); j++ {
+			lk.Data = append(lk.Data, zeros[g.r.Intn(len(zeros))])
+			la.Data = append(la.Data, IntCell("int", int64(10+j)))
+		}
+		for j := 0; j < 2+g.r.Intn(3); j++ {
+			rk.Data = append(rk.Data, zeros[g.r.Intn(len(zeros))])
+			rv.Data = append(rv.Data, IntCell("int", int64(100+j)))
+		}
+		res.Hists = append(res.Hists, joinHist("zero-valued-keys", mkFrame(lk, la), mkFrame(rk, rv), "k"))
+		bump(res.Stats, "zero-valued-keys")
+	}
+}
+
+// C04: time cells as keys, equal to the second but not to the nanosecond, alone and in key lists
+func gap6C04(g *Gen, tier string, res *GenOutput) {
+	base := time.Date(2021, 3, 4, 12, 0, 0, 0, time.UTC)
+	for i := 0; i < scale(tier, 8, 40); i++ {
+		k := Col{Key: "k0", Name: "k0", Data: []Cell{}}
+		k1 := Col{Key: "k1", Name: "k1", Data: []Cell{}}
+		v := Col{Key: "v0", Name: "v0", Data: []Cell{}}
+		for j := 0; j < 3+g.r.Intn(4); j++ {
+			k.Data = append(k.Data, TimeCell(base.Add(time.Duration([]int64{0, 500000000, 1, 0, 1000000000, 999999999}[g.r.Intn(6)]))))
+			k1.Data = append(k1.Data, StrCell([]string{"a", "b"}[g.r.Intn(2)]))
+			v.Data = append(v.Data, IntCell("int", int64(j)))
+		}
+		f := mkFrame(k, k1, v)
+		ops := []Op{{K: "groupby", F: 0, S1: "k0"}, {K: "groupby", F: 0, GList: true, Strs: []BStr{"k0"}}, {K: "groupby", F: 0, GList: true, Strs: []BStr{"k1", "k0"}},
+			{K: "groupagg", F: 0, GList: true, Strs: []BStr{"k0", "k1"}, Agg: "count", Cols: []BStr{"v0"}}}
+		res.Hists = append(res.Hists, RunHist("time-keys", []Frame{f}, ops))
+		bump(res.Stats, "time-keys")
+	}
+}
+
+// C05: integers at the ends of the int64/uint64 range in one group; a report edited in place before the
+// grouped object is used again
+func gap6C05(g *Gen, tier string, res *GenOutput) {
+	ext := []Cell{IntCell("int64", 9223372036854775807), IntCell("int64", 9223372036854775807), IntCell("int8", 1), UintCell("uint64", 1<<63), IntCell("int64", -9223372036854775808),
+		IntCell("int", 9223372036854775806), UintCell("uint64", 18446744073709551615), IntCell("int", 3), F64Cell(0.5), NilCell()}
+	for i := 0; i < scale(tier, 10, 60); i++ {
+		k := Col{Key: "k0", Name: "k0", Data: []Cell{}}
+		v := Col{Key: "v0", Name: "v0", Data: []Cell{}}
+		for j := 0; j < 3+g.r.Intn(5); j++ {
+			k.Data = append(k.Data, StrCell([]string{"a", "b"}[g.r.Intn(2)]))
+			v.Data = append(v.Data, ext[g.r.Intn(len(ext))])
+		}
+		ops := []Op{{K: "groupagg", F: 0, S1: "k0", Agg: "sum", Cols: []BStr{"v0"}}, {K: "groupagg", F: 0, S1: "k0", Agg: "mean", Cols: []BStr{"v0"}}, {K: "agg", F: 0, Agg: "sum"},
+			{K: "groupagg", F: 0, GList: true, Strs: []BStr{"k0"}, Agg: "sum"}}
+		res.Hists = append(res.Hists, RunHist("extreme-integers", []Frame{mkFrame(k, v)}, ops))
+		bump(res.Stats, "extreme-integers")
+	}
+	for i := 0; i < scale(tier, 10, 60); i++ {
+		k := Col{Key: "k0", Name: "k0", Data: []Cell{StrCell("a"), StrCell("b"), NilCell(), StrCell("a"), StrCell("c"), StrCell("b"), StrCell("a")}}
+		f := mkFrame(k, intCol("v0", 1, 2, 3, 4, 5, 6, 7))
+		seven := IntCell("int", 7)
+		ag := func(a string, reuse bool) Op {
+			return Op{K: "groupagg", F: 0, S1: "k0", Agg: a, Cols: []BStr{"v0"}, Reuse: reuse}
+		}
+		edit := []Op{{K: "droprow", F: 1, N: int64(g.r.Intn(3))}, {K: "fillna", F: 1, Cell: &seven}, {K: "setcell", F: 1, S1: "GroupKey", N: int64(g.r.Intn(3)), Cell: &seven}}[g.r.Intn(3)]
+		ops := []Op{ag([]string{"sum", "mean", "count"}[g.r.Intn(3)], false), edit, ag("count", true), ag("sum", true), ag("mean", true)}
+		res.Hists = append(res.Hists, RunHist("report-edited-then-aggregate-again", []Frame{f}, ops))
+		bump(res.Stats, "report-edited")
+	}
+}
+
+// C06: float keys closer than 1e-9 (different numbers are never ties); the same frame sorted again after its
+// key column was edited in place; a column named twice in the sort list
+func gap6C06(g *Gen, tier string, res *GenOutput) {
+	t, fl := true, false
+	close9 := []float64{3e-10, 1e-10, 2e-10, 0, -1e-10, 0.1 + 0.2, 0.3, 0.30000000000000004 + 1e-12, 1, 1 + 2.220446049250313e-16, 1 - 1.1102230246251565e-16}
+	for i := 0; i < scale(tier, 10, 60); i++ {
+		s0 := Col{Key: "s0", Name: "s0", Data: []Cell{}}
+		s1 := Col{Key: "s1", Name: "s1", Data: []Cell{}}
+		id := Col{Key: "id", Name: "id", Data: []Cell{}}
+		n := 3 + g.r.Intn(6)
+		for j := 0; j < n; j++ {
+			s0.Data = append(s0.Data, F64Cell(close9[g.r.Intn(len(close9))]))
+			s1.Data = append(s1.Data, IntCell("int", int64(g.r.Intn(3))))
+			id.Data = append(id.Data, IntCell("int", int64(j)))
+		}
+		ops := []Op{{K: "sort", F: 0, Strs: []BStr{"s0"}, Asc: &t}, {K: "sort", F: 0, Strs: []BStr{"s0"}, Asc: &fl}, {K: "sort", F: 0, Strs: []BStr{"s0", "s1"}, Asc: &t},
+			{K: "sort", F: 0, Strs: []BStr{"s1", "s0"}, Asc: &fl}}
+		res.Hists = append(res.Hists, RunHist("nearly-equal-floats", []Frame{mkFrame(s0, s1, id)}, ops))
+		bump(res.Stats, "nearly-equal-floats")
+	}
+	for i := 0; i < scale(tier, 12, 80); i++ {
+		s0 := Col{Key: "s0", Name: "s0", Data: []Cell{IntCell("int", 30), NilCell(), IntCell("int", 10), IntCell("int", 20), NilCell()}}
+		f := mkFrame(s0, intCol("id", 0, 1, 2, 3, 4))
+		five, big := IntCell("int", 5), IntCell("int", 1000)
+		edits := []Op{{K: "fillna", F: 0, Cell: &five}, {K: "setcell", F: 0, S1: "s0", N: int64(g.r.Intn(5)), Cell: &big}, {K: "setcell", F: 0, S1: "s0", N: int64(g.r.Intn(5)), Cell: &five},
+			{K: "droprow", F: 0, N: 0}, {K: "appendrow", F: 0, Row: []KV{{K: "id", V: IntCell("int", 9)}, {K: "s0", V: IntCell("int", 15)}}}}
+		asc := g.chance(0.5)
+		ops := []Op{{K: "sort", F: 0, Strs: []BStr{"s0"}, Asc: &asc}}
+		for r := 0; r < 3; r++ {
+			ops = append(ops, edits[g.r.Intn(len(edits))])
+			if g.chance(0.4) {
+				ops = append(ops, edits[g.r.Intn(len(edits))])
+			}
+			ops = append(ops, Op{K: "sort", F: 0, Strs: []BStr{"s0"}, Asc: &asc})
+		}
+		res.Hists = append(res.Hists, RunHist("sort-edit-sort-same-frame", []Frame{f}, ops))
+		bump(res.Stats, "sort-edit-sort-same-frame")
+	}
+	for _, by := range [][]BStr{{"k", "k"}, {"g", "k", "g"}, {"k", "g", "k"}, {"g", "g", "k"}} {
+		f := mkFrame(intCol("k", 3, 1, 2, 1, 3), strCol("g", "b", "a", "b", "b", "a"), strCol("name", "three", "one", "two", "uno", "tres"))
+		ops := []Op{{K: "sort", F: 0, Strs: by, Asc: &t}, {K: "sort", F: 0, Strs: by, Asc: &fl}, {K: "sort", F: 0, Strs: by}}
+		res.Hists = append(res.Hists, RunHist("repeated-sort-column", []Frame{f}, ops))
+		bump(res.Stats, "repeated-sort-column")
+	}
+}
+
+// C09: an export whose sink fails, then ordinary exports of other frames (nothing may be left over)
+func gap6C09(g *Gen, tier string, res *GenOutput) {
+	a := mkFrame(strCol("a", "one", "two", "three"), strCol("b", "x", "y", "z"), strCol("c", "1", "", "q\"r"))
+	b := mkFrame(strCol("only", "p", "q"))
+	for _, file := range []bool{false, true} {
+		ops := []Op{{K: "tocsv", F: 1}, {K: "iofail", F: 0, ViaFile: file}, {K: "tocsv", F: 1}, {K: "csvroundtrip", F: 1}, {K: "iofail", F: 1, ViaFile: file}, {K: "csvroundtrip", F: 0},
+			{K: "csvroundtrip", F: 0, ViaFile: true}, {K: "tocsv", F: 0}}
+		res.Hists = append(res.Hists, RunHist("export-after-a-failed-export", []Frame{a, b}, ops))
+		bump(res.Stats, "export-after-a-failed-export")
+	}
+}
+
+// C15: floats a hair away from an integer (truncation, never rounding); a fill value keeps its own type
+func gap6C15(g *Gen, tier string, res *GenOutput) {
+	near := []float64{434.99999999999994, 0.9999999999, -0.9999999999, -2.99999999999, 4.35 * 100, 1.0000000001, 2.9999999999999996, -0.0000000001, 8388607.9999999, 0.1 + 0.7}
+	v := Col{Key: "v", Name: "v", Data: []Cell{}}
+	for _, x := range near {
+		v.Data = append(v.Data, F64Cell(x))
+	}
+	res.Hists = append(res.Hists, RunHist("near-integers", []Frame{mkFrame(v)}, []Op{{K: "astype", F: 0, S1: "v", S2: "int"}, {K: "astype", F: 0, S1: "v", S2: "string"}}))
+	bump(res.Stats, "near-integers")
+	fills := []Cell{IntCell("int", 0), IntCell("int", 9007199254740993), F64Cell(0), StrCell("0"), BoolCell(false), IntCell("int64", 7)}
+	for i, fill := range fills {
+		c := fill
+		f := mkFrame(Col{Key: "price", Name: "price", Data: []Cell{F64Cell(1.5), NilCell(), F64Cell(2.25), NilCell()}}, Col{Key: "qty", Name: "qty", Data: []Cell{IntCell("int", 1), NilCell(), NilCell(), IntCell("int", 4)}},
+			Col{Key: "none", Name: "none", Data: []Cell{NilCell(), NilCell(), NilCell(), NilCell()}})
+		ops := []Op{{K: "fillna", F: 0, Cell: &c}, {K: "row", F: 0, N: 1}, {K: "astype", F: 0, S1: "price", S2: "int"}, {K: "astype", F: 0, S1: "qty", S2: "float64"}}
+		res.Hists = append(res.Hists, RunHist(fmt.Sprintf("fill-value-type #%d", i), []Frame{f}, ops))
+		bump(res.Stats, "fill-value-type")
+	}
+}
+
+// C16: aggregate, edit the column in place keeping its length, aggregate again
+func gap6C16(g *Gen, tier string, res *GenOutput) {
+	for i := 0; i < scale(tier, 12, 80); i++ {
+		f := mkFrame(Col{Key: "v", Name: "v", Data: []Cell{F64Cell(1.5), F64Cell(2.5), F64Cell(3.5), F64Cell(4.5)}}, intCol("w", 1, 2, 3, 4))
+		hundred, na := IntCell("int", 100), StrCell("n/a")
+		edits := []Op{{K: "setcell", F: 0, S1: "v", N: int64(g.r.Intn(4)), Cell: &hundred}, {K: "astype", F: 0, S1: "v", S2: "int"}, {K: "setcell", F: 0, S1: "w", N: int64(g.r.Intn(4)), Cell: &na},
+			{K: "droprow", F: 0, N: 0}, {K: "appendrow", F: 0, Row: []KV{{K: "v", V: IntCell("int", 1000)}, {K: "w", V: IntCell("int", 1000)}}}, {K: "astype", F: 0, S1: "w", S2: "string"}}
+		ags := []string{"sum", "mean", "min", "max"}
+		ops := []Op{{K: "agg", F: 0, Agg: ags[g.r.Intn(4)]}}
+		for r := 0; r < 3; r++ {
+			ops = append(ops, edits[g.r.Intn(len(edits))])
+			if g.chance(0.3) {
+				ops = append(ops, edits[g.r.Intn(len(edits))])
+			}
+			ops = append(ops, Op{K: "agg", F: 0, Agg: ags[g.r.Intn(4)]}, Op{K: "describe", F: 0})
+		}
+		res.Hists = append(res.Hists, RunHist("aggregate-edit-aggregate", []Frame{f}, ops))
+		bump(res.Stats, "aggregate-edit-aggregate")
+	}
+}
+
+// C17: frames without rows or without columns, both axes
+func gap6C17(g *Gen, tier string, res *GenOutput) {
+	one, zero := []int64{1}, []int64{0}
+	for _, f := range []Frame{mkFrame(), mkFrame(Col{Key: "a", Name: "a", Data: []Cell{}}, Col{Key: "b", Name: "b", Data: []Cell{}}), mkFrame(intCol("a", 5)), mkFrame(intCol("a", 5), strCol("b", "x"))} {
+		ops := []Op{}
+		for _, fn := range []int{0, 2, 3} {
+			ops = append(ops, Op{K: "apply", F: 0, Fn: fn, Axis: &one}, Op{K: "apply", F: 0, Fn: fn, Axis: &zero}, Op{K: "apply", F: 0, Fn: fn})
+		}
+		res.Hists = append(res.Hists, RunHist("empty-shapes", []Frame{f}, ops))
+		bump(res.Stats, "empty-shapes")
+	}
+}
+
+// C18: the identity aggregation (each cell of the result is the very slice the function was given); zones whose
+// offset is not a whole number of hours or minutes
+func gap6C18(g *Gen, tier string, res *GenOutput) {
+	for i := 0; i < scale(tier, 12, 80); i++ {
+		off := []int{0, 19800, 20700, -17762, 1172, 3600, -12600}[g.r.Intn(7)]
+		tcol := Col{Key: "t", Name: "t", Data: []Cell{}}
+		x := Col{Key: "x", Name: "x", Data: []Cell{}}
+		y := Col{Key: "y", Name: "y", Data: []Cell{}}
+		n := 3 + g.r.Intn(6)
+		for j := 0; j < n; j++ {
+			tcol.Data = append(tcol.Data, TimeCell(time.Date(2021, 3, 4+g.r.Intn(2), 9+g.r.Intn(3), g.r.Intn(60), g.r.Intn(60), 0, zoneFor(off))))
+			x.Data = append(x.Data, IntCell("int", int64(10*(j+1))))
+			if g.chance(0.2) {
+				y.Data = append(y.Data, NilCell())
+			} else {
+				y.Data = append(y.Data, StrCell(fmt.Sprintf("r%d", j)))
+			}
+		}
+		ops := []Op{}
+		for _, fq := range []string{"D", "H", "T", "M"} {
+			ops = append(ops, Op{K: "resample", F: 0, S1: "t", S2: BStr(fq), Fn: 4}, Op{K: "resample", F: 0, S1: "t", S2: BStr(fq), Fn: 1})
+		}
+		res.Hists = append(res.Hists, RunHist(fmt.Sprintf("identity offset=%d", off), []Frame{mkFrame(tcol, x, y)}, ops))
+		bump(res.Stats, "identity-aggregation")
+	}
+}
+
+// C20: SortValues over a column that mixes times with other scalars; a failing sink
+func gap6C20(g *Gen, tier string, res *GenOutput) {
+	t1 := TimeCell(time.Date(2021, 3, 4, 5, 6, 7, 0, time.UTC))
+	t2 := TimeCell(time.Date(2020, 1, 1, 0, 0, 0, 5, zoneFor(3600)))
+	tr, fl := true, false
+	for _, other := range []Cell{StrCell("n/a"), BoolCell(true), IntCell("int", 3), F64Cell(1.5), StrCell("2021-03-04 05:06:07 +0000 UTC")} {
+		for _, order := range [][]Cell{{other, t1}, {t1, other}, {t2, other, t1}, {other, t2, NilCell(), t1}} {
+			id := Col{Key: "id", Name: "id", Data: []Cell{}}
+			for i := range order {
+				id.Data = append(id.Data, IntCell("int", int64(i)))
+			}
+			f := mkFrame(Col{Key: "m", Name: "m", Data: order}, id)
+			ops := []Op{{K: "sort", F: 0, Strs: []BStr{"m"}, Asc: &tr}, {K: "sort", F: 0, Strs: []BStr{"m"}, Asc: &fl}, {K: "sort", F: 0, Strs: []BStr{"id", "m"}},
+				{K: "iofail", F: 0}, {K: "iofail", F: 0, ViaFile: true}, {K: "string", F: 0}}
+			res.Hists = append(res.Hists, RunHist("sort-mixed-time-column", []Frame{f}, ops))
+			bump(res.Stats, "sort-mixed-time-column")
+		}
 	}
 }
